@@ -432,6 +432,7 @@ pub fn live_entries(slots: &[Slot], fat32: bool) -> Vec<Ent> {
         frags: Vec<[u16; 13]>, // disk order: highest ordinal first
         total: u8,
         interrupted_by_deleted: bool,
+        mixed_csum: bool,
     }
     let mut run: Option<Run> = None;
     for (i, s) in slots[..end].iter().enumerate() {
@@ -444,18 +445,27 @@ pub fn live_entries(slots: &[Slot], fat32: bool) -> Vec<Ent> {
             continue;
         }
         if slot_is_lfn(raw) {
-            let ord = raw[0] & 0x3F;
+            // bit 0x20 of the ordinal byte is not defined by the specification: a run that carries it is
+            // judged either way
+            let ord = raw[0] & 0x1F;
+            let odd = raw[0] & 0x20 != 0;
             let start = raw[0] & 0x40 != 0;
             let csum = raw[13];
             if start {
                 if (1..=20).contains(&ord) {
-                    run = Some(Run { csum, next: ord - 1, frags: vec![lfn_units(raw)], total: ord, interrupted_by_deleted: false });
+                    run = Some(Run { csum, next: ord - 1, frags: vec![lfn_units(raw)], total: ord, interrupted_by_deleted: false, mixed_csum: odd });
                 } else {
                     run = None;
                 }
             } else {
                 match run.as_mut() {
-                    Some(r) if !r.interrupted_by_deleted && r.next >= 1 && ord == r.next && csum == r.csum => {
+                    // (a deleted slot inside a run leaves the association unsettled, see `interrupted_by_deleted`)
+                    Some(r) if r.next >= 1 && ord == r.next => {
+                        // fragments that disagree about the checksum: the run's checksum is not well defined,
+                        // the statement does not settle whether a name is reported
+                        if csum != r.csum || odd {
+                            r.mixed_csum = true;
+                        }
                         r.frags.push(lfn_units(raw));
                         r.next -= 1;
                     }
@@ -478,7 +488,7 @@ pub fn live_entries(slots: &[Slot], fat32: bool) -> Vec<Ent> {
                         f[..n].to_vec()
                     })
                     .collect();
-                if r.interrupted_by_deleted || r.total >= 20 {
+                if r.interrupted_by_deleted || r.total >= 20 || r.mixed_csum {
                     LfnVerdict::Either(frags)
                 } else {
                     LfnVerdict::Due(frags)
